@@ -88,8 +88,35 @@ def apply_variant(v, d):
     return True
 
 
-def run(prop, seed=0, max_seconds=1500):
+def _worker_init(counter):
+    with counter.get_lock():
+        counter.value += 1
+        slot = counter.value
+    os.environ["KMT_TARGET_SLOT"] = "-b%d" % slot
+
+
+def _run_one(args):
+    """apply one variant to a private copy and evaluate the property's rules on it (in a worker process)"""
+    prop, v, pristine, deadline = args
     from .run import evaluate
+    if time.time() > deadline:
+        return v, "time_box", None
+    d = tempfile.mkdtemp(prefix="kmt-variant-", dir=os.path.dirname(pristine))
+    try:
+        subprocess.check_call(["rsync", "-a", pristine + "/", d + "/"])
+        if not apply_variant(v, d):
+            return v, "skipped", None
+        try:
+            ctx, _ = evaluate(prop, d)
+        except facts.CheckerError:
+            return v, "no_compile", None
+        return v, "ok", sorted(set(r["rule"] for r in ctx.results if r["status"] == "violation"))
+    finally:
+        shutil.rmtree(d, ignore_errors=True)
+
+
+def run(prop, seed=0, max_seconds=1500):
+    import multiprocessing
     t0 = time.time()
     variants = load_variants(prop)
     rnd = random.Random(seed)
@@ -97,42 +124,37 @@ def run(prop, seed=0, max_seconds=1500):
     res = {"ok": True, "variants_total": len(variants), "fired": [], "neutral_silent": [], "skipped": [], "failures": [],
            "not_run_time_box": []}
     pristine = scratch_copy()
+    workers = max(1, min(4, (os.cpu_count() or 4) // 4))
+    res["workers"] = workers
     try:
-        for v in variants:
-            if time.time() - t0 > max_seconds:
+        counter = multiprocessing.Value("i", 0)
+        jobs = [(prop, v, pristine, t0 + max_seconds) for v in variants]
+        with multiprocessing.Pool(workers, initializer=_worker_init, initargs=(counter,)) as pool:
+            results = pool.map(_run_one, jobs, chunksize=1)
+        for v, status, viol in results:
+            if status == "time_box":
                 res["not_run_time_box"].append(v["name"])
-                continue
-            d = tempfile.mkdtemp(prefix="kmt-variant-", dir=os.path.dirname(pristine))
-            try:
-                subprocess.check_call(["rsync", "-a", pristine + "/", d + "/"])
-                if not apply_variant(v, d):
-                    res["skipped"].append(v["name"])
-                    continue
-                try:
-                    ctx, _ = evaluate(prop, d)
-                except facts.CheckerError as e:
-                    res["skipped"].append(v["name"] + " (does not compile on the current tree)")
-                    continue
-                viol = sorted(set(r["rule"] for r in ctx.results if r["status"] == "violation"))
-                if v["kind"] == "breaking":
-                    exp = v.get("expect_rules") or [prop + "."]
-                    hit = [r for r in viol if any(r.startswith(e) for e in exp)]
-                    if hit:
-                        res["fired"].append({"variant": v["name"], "rules": hit})
-                    elif viol and v["name"].startswith("seeded/"):
-                        # caught, but by other rules of this property than those recorded when the seed was filed
-                        res["fired"].append({"variant": v["name"], "rules": viol, "note": "recorded rules %s no longer fire" % exp})
-                    else:
-                        res["ok"] = False
-                        res["failures"].append("breaking variant %s was not reported by %s (violations: %s)" % (v["name"], exp, viol))
+            elif status == "skipped":
+                res["skipped"].append(v["name"])
+            elif status == "no_compile":
+                res["skipped"].append(v["name"] + " (does not compile on the current tree)")
+            elif v["kind"] == "breaking":
+                exp = v.get("expect_rules") or [prop + "."]
+                hit = [r for r in viol if any(r.startswith(e) for e in exp)]
+                if hit:
+                    res["fired"].append({"variant": v["name"], "rules": hit})
+                elif viol and v["name"].startswith("seeded/"):
+                    # caught, but by other rules of this property than those recorded when the seed was filed
+                    res["fired"].append({"variant": v["name"], "rules": viol, "note": "recorded rules %s no longer fire" % exp})
                 else:
-                    if viol:
-                        res["ok"] = False
-                        res["failures"].append("neutral variant %s raised %s" % (v["name"], viol))
-                    else:
-                        res["neutral_silent"].append(v["name"])
-            finally:
-                shutil.rmtree(d, ignore_errors=True)
+                    res["ok"] = False
+                    res["failures"].append("breaking variant %s was not reported by %s (violations: %s)" % (v["name"], exp, viol))
+            else:
+                if viol:
+                    res["ok"] = False
+                    res["failures"].append("neutral variant %s raised %s" % (v["name"], viol))
+                else:
+                    res["neutral_silent"].append(v["name"])
     finally:
         shutil.rmtree(pristine, ignore_errors=True)
     w = witnesses(prop)
